@@ -27,7 +27,8 @@ type Pipe struct {
 	CutAfter int64
 	CutErr   error
 	// FlipAt >= 0 (set FlipOn) inverts the byte at that absolute offset of the delivered stream.
-	FlipAt int64
+	FlipAt   int64
+	FlipMask byte // 0 = invert the whole byte
 	// one-shot overrides used when a behaviour of the specification is replayed: the next Write is
 	// split in two fragments / the next Read takes exactly this many fragments
 	ForceSplit bool
@@ -162,7 +163,11 @@ func (p *Pipe) Read(b []byte) (int, error) {
 		}
 		c := copy(b[n:n+min(room, len(f))], f)
 		if p.FlipAt >= p.read && p.FlipAt < p.read+int64(c) {
-			b[n+int(p.FlipAt-p.read)] ^= 0xff
+			m := p.FlipMask
+			if m == 0 {
+				m = 0xff
+			}
+			b[n+int(p.FlipAt-p.read)] ^= m
 		}
 		n += c
 		p.read += int64(c)
